@@ -2,18 +2,20 @@ from checks.common import *
 import os, glob, zipfile, io
 
 SPEC = {
-    "translators": [],
+    "translators": ["gen_protoschema"],
     "bins": ["c12"],
     "model_targets": ["Types/StructCheck.vo"],
-    "proof_targets": ["Types/StructModelProofs.vo"],
+    "proof_targets": ["Types/StructModelProofs.vo", "Types/ProtoSchemaProofs.vo"],
     "assumptions": [
-        "hand-written model of Struct::from_proto_descriptor_and_msg / new_value / new_array / new_map*, emit_field_access and lookup_field / array indexing / map lookup (tied to the code by the verdict comparison, no translator)",
+        "hand-written model of Struct::from_proto_descriptor_and_msg / new_value / new_array / new_map*, emit_field_access and lookup_field / array indexing / map lookup, tied to the code by (1) the verdict comparison, (2) the field indexes read from the compiler's IR dump of every generated rule, which must equal the model's compile_path on the schema generated from the .proto sources, (3) equality of that generated schema with the descriptor obtained by reflection from the library",
         "field names are distinct from each other and from the generated enum/function/method field names (IndexMap::insert would replace instead of append); holds for every registered module or from_proto_descriptor_and_msg panics",
         "descriptor and message content are read through protobuf reflection by the harness (the same calls structure.rs makes); strings are compared by identity of their bytes, floats by bit pattern (NaN and -0.0 are not generated)",
         "the position of the module inside the root structure (first index of every path) and the evaluation of ==, defined, for-any/all, len() themselves are outside the model (C02)",
         "map iteration order is the order in which protobuf reflection yields the entries (hash order); it is not observable from a condition, only len() and key lookups are compared",
     ],
-    "trusted_base": ["decoding of (yara.field_options).name / .ignore from the descriptor's unknown fields in harness/src/bin/c12.rs",
+    "trusted_base": ["Gen/ProtoSchema.v: module schemas (field names after renames, numbers, ignored flags, types, nesting, generated enum field names, acl/lowercase/fmt/deprecation lists, enum values) parsed from lib/src/modules/protos/*.proto by gen_protoschema.py",
+                     "Compiler::set_ir_writer output format (`SYMBOL Field { index: N, is_root: .. }`) parsed by the harness",
+                     "decoding of (yara.field_options).name / .ignore from the descriptor's unknown fields in harness/src/bin/c12.rs",
                      "Intel-HEX/zip decoding of the module test samples in checks/C12.py"],
 }
 
@@ -21,7 +23,7 @@ RULE = ("built-in modules (lnk, elf, macho, pe, dotnet, dex, crx: the smallest t
         "supplied through set_module_output; synthetic test_proto2 / test_proto3 messages built by reflection (every field: required always, optional with probability 0.3-0.8, "
         "repeated of length 0/1/2/3/6, maps with 0/1/2/4 entries incl. extreme int keys and empty/escaped string keys; values i32/i64/u32/u64 MIN/MAX/2^63, empty/long/non-ASCII/NUL "
         "strings and bytes, nested messages, enums). Per message up to 220 conditions over every field path: defined p, p == value, p == another value, absent fields, array "
-        "elements at 0/last/len/len+7, len(), for any / for all, map keys present/missing, for any k,v, repeated message fields of absent messages (own cases). Cases run in child-process batches. One evaluation = one rule verdict. Non-trivial: every message; distinct by content.")
+        "elements at 0/last/len/len+7, len(), for any / for all, map keys present/missing, for any k,v, repeated message fields of absent messages (own cases). Cases run in child-process batches. One evaluation = one rule verdict plus the field indexes of the compiled rule. Non-trivial: every message; distinct by content.")
 
 MAX_SAMPLE = 300_000
 MODULES = ["lnk", "elf", "macho", "pe", "dotnet", "dex", "crx"]
